@@ -126,6 +126,11 @@ pub fn run_program(prog: &Program, o: &RunOpts) -> RunResult {
     }));
     if res.is_err() {
         let msg = LAST_PANIC.with(|p| p.borrow_mut().take()).unwrap_or_else(|| "<no message>".into());
+        if msg.contains("could not build thread pool") || msg.contains("failed to spawn thread") || msg.contains("Resource temporarily unavailable") {
+            // the environment ran out of threads / address space: not a verdict about OxiDD
+            eprintln!("HARNESS-RESOURCE: {}", msg.replace('\n', " | "));
+            std::process::exit(2);
+        }
         let ins = prog.instrs.get(ctx.step);
         let p = ins.map(prop_of).unwrap_or("C05");
         let mut props = vec![p];
